@@ -43,8 +43,14 @@ C02 == \A i \in 1..Len(out) : C02Tok(i)
 (* C03 -- silence tolerance.  A run of invalid frames is followed across cuts between a token cut at
    max_length and its immediate continuation. *)
 MaxRun == IF p.imin > 1 THEN Max2(p.sil, p.isil) ELSE p.sil
-\* frame k lies in token j and tokens j+1..i are all immediate continuations (so j..i is one chain)
-InChain(k, i) == \E j \in 1..i : out[j].start <= k /\ k <= out[j].end /\ \A m \in (j+1)..i : IsCont(m)
+\* frame k lies in token j and tokens j+1..i are all immediate continuations (so j..i is one chain): declarative form ...
+InChainDecl(k, i) == \E j \in 1..i : out[j].start <= k /\ k <= out[j].end /\ \A m \in (j+1)..i : IsCont(m)
+\* ... and the equivalent form the monitors evaluate (linear instead of quadratic in the number of tokens): the chain of token i
+\* starts at the first token from which every later one up to i is an immediate continuation, and a chain is contiguous
+RECURSIVE ChainStart(_)
+ChainStart(i) == IF IsCont(i) THEN ChainStart(i - 1) ELSE i
+InChain(k, i) == out[ChainStart(i)].start <= k /\ k <= out[i].end
+InChainSame == C01 => \A i \in 1..Len(out) : \A k \in 0..(N - 1) : InChain(k, i) = InChainDecl(k, i)
 C03Tok(i) == LET t == out[i] IN
           /\ \E k \in t.start..t.end : Valid(k)
           /\ (~IsCont(i) => Valid(t.start))
@@ -67,9 +73,12 @@ PieceTok(s, x, j) == LET a == s + j * p.max  b == Min2(a + p.max - 1, x)  vs == 
         IF (b2 - a + 1 >= p.min) \/ (~p.strict /\ j > 0) THEN <<[start |-> a, end |-> b2]>> ELSE <<>>
 RECURSIVE Pieces(_, _, _)
 Pieces(s, x, j) == IF s + j * p.max > x THEN <<>> ELSE PieceTok(s, x, j) \o Pieces(s, x, j + 1)
+\* first valid frame at or after i (N if there is none): a linear scan (CHOOSE-the-minimum of a set is quadratic in TLC)
+RECURSIVE FirstValid(_)
+FirstValid(i) == IF i >= N THEN N ELSE IF Valid(i) THEN i ELSE FirstValid(i + 1)
 RECURSIVE Seg(_)
-Seg(i) == LET vs == {k \in i..(N-1) : Valid(k)} IN IF vs = {} THEN <<>>
-          ELSE LET s == SetMin(vs)  e == StretchEnd(s)  x == Min2(e + p.sil, N - 1) IN
+Seg(i) == LET s == FirstValid(i) IN IF s >= N THEN <<>>
+          ELSE LET e == StretchEnd(s)  x == Min2(e + p.sil, N - 1) IN
                Pieces(s, x, 0) \o Seg(x + 1)
 OutSE == [i \in 1..Len(out) |-> [start |-> out[i].start, end |-> out[i].end]]
 \* (a run that is over has asked the source for more until it answered end-of-stream: nothing after a falsy / odd frame is silently dropped)
